@@ -7,7 +7,12 @@
 */
 #include "env_pre.h"
 #define psf_log_printf(...)		verif_nolog ()
+#ifdef LAYOUT_MS
+#include "ms_adpcm.c"
+#define IMA_ADPCM_PRIVATE	MSADPCM_PRIVATE		/* same reader state fields: blocksize, samplesperblock, blocks, blockcount, samplecount */
+#else
 #include "ima_adpcm.c"
+#endif
 void verif_nolog (void) { }
 #include "ghost.h"
 
@@ -19,6 +24,12 @@ void verif_nolog (void) { }
 #define BLOCKSIZE	34
 #define SPB			64
 #define SEEK_FN		aiff_ima_seek
+#elif defined (LAYOUT_MS)
+#define K			1
+#define BLOCKSIZE	(256 * CH)
+#define SPB			(2 + 2 * (BLOCKSIZE - 7 * CH) / CH)
+#define SEEK_FN		msadpcm_seek
+#define decode_block_c	msadpcm_decode_block	/* called directly: replaced by the contract below */
 #else
 #define K			1
 #define BLOCKSIZE	(256 * CH)
@@ -53,7 +64,9 @@ static sf_count_t SEEK_FN (SF_PRIVATE *psf, int mode, sf_count_t offset)
 __CPROVER_requires (__CPROVER_is_fresh (psf, sizeof (SF_PRIVATE)) && __CPROVER_is_fresh (psf->codec_data, sizeof (IMA_ADPCM_PRIVATE)))
 __CPROVER_requires (psf->sf.channels == CH && PIMA->channels == CH && PIMA->blocksize == BLOCKSIZE && PIMA->samplesperblock == SPB)
 __CPROVER_requires (0 <= PIMA->blocks && PIMA->blocks <= (1 << 20) && PIMA->blocks % K == 0 && 0 <= PIMA->blockcount && PIMA->blockcount <= PIMA->blocks + K)
+#ifndef LAYOUT_MS
 __CPROVER_requires (__CPROVER_obeys_contract (PIMA->decode_block, decode_block_c))
+#endif
 __CPROVER_requires (0 <= psf->dataoffset && psf->dataoffset <= (1LL << 40) && psf->dataoffset == vin_dataoffset && 0 <= psf->datalength)
 __CPROVER_requires ((vin_offset < 0 || vin_offset > (1LL << 31)) || (0 <= vin_q && vin_q <= (1LL << 31) && 0 <= vin_r && vin_r < SPB && vin_offset == vin_q * SPB + vin_r))
 __CPROVER_requires (offset == vin_offset && mode == vin_mode && PIMA->blocks == vin_blocks && g_decode_calls == 0 && LOADED_OK (g_loaded_pos))
@@ -68,7 +81,9 @@ __CPROVER_ensures ((__CPROVER_return_value != PSF_SEEK_ERROR && g_decode_calls >
 
 void h_ima_seek (void)
 {	SF_PRIVATE *psf ; int mode ; sf_count_t offset ;
+#ifndef LAYOUT_MS
 	void *keep_c [] = { (void *) decode_block_c } ; (void) keep_c ;
+#endif
 	{ sf_count_t a [4] ; int b [2] ; vin_offset = a [0] ; vin_dataoffset = a [1] ; g_file_pos = a [2] ; g_loaded_pos = a [3] ; vin_mode = b [0] ; vin_blocks = b [1] ; }
 	{ sf_count_t c [2] ; vin_q = c [0] ; vin_r = c [1] ; }
 	g_decode_calls = 0 ;
